@@ -335,6 +335,20 @@ func (c09) Run(t *testing.T, tape *core.Tape, rcx *RunCtx) *core.Result {
 			res.Count("probe_decoy_upstream_cycle_excludes_seed", 1)
 		}
 	}
+	// free-pool mode: extra fragments that cross-link existing junctions. The product set
+	// is then no longer known by construction; the independent cycle enumeration is the oracle.
+	freePool := tape.Chance(10)
+	if freePool {
+		pool := append(append([]string{}, sc.Junctions...), sc.Ring2...)
+		n := 1 + tape.Draw(3)
+		for i := 0; i < n; i++ {
+			f := c09Frag{F: pool[tape.Draw(len(pool))], R: pool[tape.Draw(len(pool))], Role: "crosslink"}
+			f.S = c09Interior(tape, e, f.F, f.R, 12)
+			frags = append(frags, f)
+			sc.Decoys = append(sc.Decoys, f.Role+" "+f.F+">"+f.R)
+		}
+		res.Count("probe_free_pool_with_crosslinks", 1)
+	}
 	// supply orientation for the direct entry; carriers for GoldenGate
 	direct := tape.Chance(25)
 	var parts []c09Part
@@ -378,7 +392,15 @@ func (c09) Run(t *testing.T, tape *core.Tape, rcx *RunCtx) *core.Result {
 	sc.Parts = parts
 	// independent enumeration: cross-check of the design, and the budget
 	enum, partial, capped := c09Enumerate(given)
-	if !capped {
+	if freePool {
+		if capped {
+			// too many partial assemblies to enumerate: not a usable scenario
+			res.Count("free_pool_too_large_skipped", 1)
+			res.LogHash = "skipped"
+			return res
+		}
+		expected = enum
+	} else if !capped {
 		if len(enum) != len(expected) {
 			res.Class = "machinery:c09-design-vs-enumeration"
 			res.Detail = fmt.Sprintf("design %d rings, enumeration %d", len(expected), len(enum))
